@@ -94,8 +94,18 @@ def main(argv=None):
   # ---- harness errors / inconclusive ceiling
   harness_msgs = []
   if herr:
-    harness_msgs.append("%d run(s) ended in a harness error; first: %s"
-                        % (len(herr), str(herr[0].get("harness_error"))[-700:]))
+    harness_msgs.append("%d run(s) ended in a harness error; first (run index %s, run_seed %s): %s"
+                        % (len(herr), herr[0].get("index"), herr[0].get("run_seed"),
+                           str(herr[0].get("harness_error"))[-700:]))
+    try:      # keep the plan for diagnosis
+      d_ = os.path.join(VERIF, "replays", pid)
+      os.makedirs(d_, exist_ok=True)
+      with open(os.path.join(d_, "harness-%s.json" % herr[0].get("run_seed")), "w") as f:
+        f.write(canon(dict(property=pid, harness_error=herr[0].get("harness_error"),
+                           run_seed=herr[0].get("run_seed"), index=herr[0].get("index"),
+                           tier=tier, verif_seed=vseed, plan=herr[0].get("plan"))))
+    except Exception:
+      pass
   ceiling = getattr(mod, "INCONCLUSIVE_CEILING", 0.01)
   n_inc_runs = sum(1 for r in results if r.get("inconclusive"))
   if n_ok and n_inc_runs / float(n_ok) > ceiling:
